@@ -274,9 +274,44 @@ def r6(ctx):
     ctx.floor(rule, n, "C12.R6.sites")
 
 
+def r7(ctx):
+    rule = "C12.R7"
+    ctx.rule(rule, "T6 normaliser provenance: Size::reconsider_constraints (run on every resolved SIZE, i.e. on bounds given by "
+                   "reference) rebuilds a value only from the fields of the value it received - in particular the extension marker of "
+                   "the rebuilt Size comes from the marker of the source - so that SIZE(lo..hi,...) with lo = hi = 2 ends in the same "
+                   "model as the literal SIZE(2..2,...)")
+    P = ctx.program()
+    bs = [b for b in P.find("asn1rs_model", "Size::reconsider_constraints") if b.def_kind == "AssocFn"]
+    if len(bs) != 1:
+        ctx.fail(rule, "anchor-lost:reconsider_constraints", "matched %d bodies" % len(bs))
+        return
+    b = bs[0]
+    O = X.Origins(b, P)
+    n = 0
+    for bb, j, st in b.all_statements():
+        if st["k"] == "assign" and st["rv"]["k"] == "agg" and st["rv"].get("ak") == "adt" and st["rv"]["adt"].endswith("size::Size") and st["rv"]["ops"]:
+            n += 1
+            v = st["rv"]["variant"]
+            fields = [F.rd(R.positional(O.operand(o, bb, j))) for o in st["rv"]["ops"]]
+            detail = {"variant": v, "fields": fields}
+            consts = [f for f in fields if not f.startswith("($1 as ")]
+            marker = fields[-1]
+            if consts:
+                ctx.fail(rule, "reconsider_constraints#Size::" + v, "Size::%s is rebuilt with `%s`, which is not a field of the value being "
+                                                                    "normalised: a bound given by reference resolves to a different model "
+                                                                    "than the same literal" % (v, consts[0]), span_loc(st["sp"]), detail)
+            elif not marker.endswith(".2"):
+                ctx.fail(rule, "reconsider_constraints#Size::" + v, "the extension marker of the rebuilt Size::%s is `%s`, not the source's marker"
+                         % (v, marker), span_loc(st["sp"]), detail)
+            else:
+                ctx.ok(rule, "reconsider_constraints#Size::" + v, detail)
+    ctx.floor(rule, n, "C12.R7.rebuilds")
+
+
 def run(ctx):
     r1_r2(ctx)
     r3(ctx)
     r4(ctx)
     r5(ctx)
     r6(ctx)
+    r7(ctx)
